@@ -21,6 +21,8 @@ impl Plugin for LinkConditionerPlugin {
 pub(super) struct LinkConditioner {
     rng: Rng,
     heap: BinaryHeap<TimedMessage>,
+    /// Insertion counter to keep messages with equal timestamps in order.
+    next_sequence: u64,
 }
 
 impl LinkConditioner {
@@ -51,8 +53,11 @@ impl LinkConditioner {
             timestamp += Duration::from_millis(latency.into());
         }
 
+        let sequence = self.next_sequence;
+        self.next_sequence += 1;
         self.heap.push(TimedMessage {
             timestamp,
+            sequence,
             channel_id,
             message,
         });
@@ -71,13 +76,18 @@ impl LinkConditioner {
 #[derive(Clone, Eq, PartialEq)]
 struct TimedMessage {
     timestamp: Instant,
+    sequence: u64,
     channel_id: u8,
     message: Bytes,
 }
 
 impl Ord for TimedMessage {
     fn cmp(&self, other: &TimedMessage) -> Ordering {
-        other.timestamp.cmp(&self.timestamp)
+        // All messages read in one frame share a timestamp, so break ties by insertion order.
+        other
+            .timestamp
+            .cmp(&self.timestamp)
+            .then_with(|| other.sequence.cmp(&self.sequence))
     }
 }
 
